@@ -1,4 +1,5 @@
 import StarsimModel.Model.Pregnancy
+import StarsimModel.Model.Fertility
 import StarsimModel.Model.Proto
 /-!
 Line-protocol driver for C19.  Every line is self-contained:  `<op> key=value …`
@@ -99,9 +100,38 @@ def pick {α} (con : List Nat) (l : List α) (dflt : α) (u : Nat) : α :=
   | some i => l.getD i dflt
   | none => dflt
 
+/-- `fertprob`: the probability vector of make_fertility_prob_fn for the uids whose ages / fecund flags are given -/
+def fertLine (kv : KV) : Option String := do
+  let rat := fun k => (getS kv k).bind parseRat?
+  let fd : FertData ← match getS kv "kind" with
+    | some "scalar" => (rat "r").map FertData.scalar
+    | some "table" => do
+        let bins ← getList kv "bins" parseRat?
+        let years ← getList kv "years" parseRat?
+        let rows ← match getS kv "rows" with
+          | none => none
+          | some v => (v.splitOn ";").mapM (fun r => (splitList r).mapM parseRat?)
+        some (FertData.table { bins := bins, years := years, rows := rows })
+    | _ => none
+  let p : Pars := { durPreg := 0, durPregYear := 0, dtYear := 0, minAge := ← rat "minage", maxAge := ← rat "maxage",
+                    prenatal := false, postnatal := false, burnin := false }
+  let ages ← getList kv "ages" parseRat?
+  let fec ← getList kv "fecundl" parseBool?
+  let wa ← getList kv "wages" parseRat?
+  let ia ← getList kv "iages" parseRat?
+  let units ← rat "units"
+  let tf ← rat "tf"
+  let target ← rat "target"
+  let probs := (ages.zip fec).map (fun af => fertilityProbOf p fd units tf target wa ia ({ age := af.1, fecund := af.2 } : Agent))
+  pure s!"ok {showList showRat probs}"
+
 def stepLine (_ : Unit) (line : String) : Unit × String :=
   match words line with
   | [] => ((), "bad-op")
+  | "fertprob" :: rest =>
+    match parseKV rest with
+    | none => ((), "bad-op")
+    | some kv => ((), (fertLine kv).getD "bad-op")
   | op :: rest =>
     match parseKV rest with
     | none => ((), "bad-op")
